@@ -1323,6 +1323,15 @@ def do_rdeg(env, st, i):
     if hw is not None and red == 'wmean':
         pairs.append(([[25], [hw], [9201], req], expect_ok(i, 'rdeg-read-w')))
         use_w = 9201
+        # the weights are paired with the map block by block: when the weight file covers fewer of the
+        # requested coverage pixels (the map has an allocated-but-empty one) they are laid out in the order
+        # of the map's blocks first (what degrade's re-housing / the per-pixel lookup on read achieve)
+        wm = env.maps[hw]
+        lay_m = sorted(c for c in set(req) if m.coverage_mask[c])
+        lay_w = sorted(c for c in set(req) if wm.coverage_mask[c])
+        if lay_w != lay_m:
+            pairs.append(([[22], [9201], [9202], [meta.ncov, meta.nfine], [1], lay_m], expect_ok(i, 'rdeg-rehouse-w')))
+            use_w = 9202
     kind, dtn, sent = expected_degrade_meta(m, meta, n, red)
     if kind == 'rec':
         btoks = []
